@@ -50,7 +50,8 @@ func AnchorGraph(r *rand.Rand, o GraphOpts) *Graph {
 	return g.g
 }
 
-var graphKeys = []string{"a", "b", "c", "d", "e", "f", "g", "h"}
+// the last four differ from "a" and "b" only by white space around them: different keys
+var graphKeys = []string{"a", "b", "c", "d", "e", "f", "g", "h", "a ", " a", "b\t", " "}
 
 func (g *ggen) scalar() *doc.Node {
 	g.uid++
